@@ -164,7 +164,7 @@ class Interp:
             lf = self.db.fn(n['lambda'], required=False)
             if lf is None:
                 raise OutOfFragment('lambda body not found')
-            return ('lambda', lf)
+            return ('lambda', lf, env)
         if k == 'InitListExpr':
             vals = [self.eval(fn, S[c], env) for c in n['c']]
             t = n.get('t', '')
@@ -272,6 +272,10 @@ class Interp:
         v = self.std_model(fn, n, env)
         if v is not NOT_HANDLED:
             return v
+        if k == 'CXXOperatorCallExpr' and n.get('op') == '()' and n.get('args'):
+            lam = self.eval(fn, S[n['args'][0]], env)
+            if isinstance(lam, tuple) and lam and lam[0] == 'lambda':
+                return self.call_lambda(lam, [self.eval(fn, S[a], env) for a in n['args'][1:]])
         # repo function: interpret
         mn = n.get('mn')
         t = self.db.by_mn.get(mn) if mn else None
@@ -490,6 +494,24 @@ class Interp:
                 self.exec(ctor, ctor.stmts[ctor.body], env)
         except _Return:
             pass
+
+    def call_lambda(self, lam, args):
+        """call a lambda value ('lambda', Fn, defining env): captures are looked up in the defining environment"""
+        lf, cenv = lam[1], lam[2] if len(lam) > 2 else {}
+        self.depth += 1
+        if self.depth > 60:
+            raise OutOfFragment('recursion depth')
+        env = dict(cenv)
+        for p, a in zip(lf.rec['params'], args):
+            env[p['did']] = a
+            env[p['name']] = a
+        try:
+            self.exec(lf, lf.stmts[lf.body], env)
+            return None
+        except _Return as r:
+            return r.v
+        finally:
+            self.depth -= 1
 
     def call(self, t, args, this=None):
         self.depth += 1
